@@ -124,7 +124,7 @@ def cover(rep, name, c, wprog, rprog, invariants=("NoTorn", "Monotone"), timeout
     h = spec_hash()
     h.update(mod_text.encode())
     key = h.hexdigest()[:16]
-    cdir = os.path.join(cb.WORK, "cache")
+    cdir = cb.CACHE
     os.makedirs(cdir, exist_ok=True)
     bfile = os.path.join(cdir, f"{name}_{key}.ndjson")
     meta = os.path.join(cdir, f"{name}_{key}.json")
@@ -159,8 +159,8 @@ def cover(rep, name, c, wprog, rprog, invariants=("NoTorn", "Monotone"), timeout
     else:
         behs = cb.behaviours_from_edges(edges)
     cb.write_behaviours(bfile, behs, {"cfg": name, "consts": c, "wprog": wprog, "rprog": rprog})
-    json.dump({"distinct": r.distinct, "generated": r.generated, "depth": r.depth, "violated": r.violated,
-               "edges": len(edges), "behaviours": len(behs)}, open(meta, "w"))
+    cb.write_json_atomic(meta, {"distinct": r.distinct, "generated": r.generated, "depth": r.depth, "violated": r.violated,
+                                "edges": len(edges), "behaviours": len(behs)})
     rep.add_tlc(r, f"TLC cover {name}: {len(edges)} transitions printed, {len(behs)} maximal paths")
     cb.prune_cache(cdir, name)
     return bfile, r, len(edges), len(behs)
@@ -402,7 +402,7 @@ def c02(tier, seed):
 
 def glob_samples(cf, rep):
     # first behaviours of a cached cover as written-out samples
-    cdir = os.path.join(cb.WORK, "cache")
+    cdir = cb.CACHE
     for f in sorted(os.listdir(cdir)) if os.path.isdir(cdir) else []:
         if f.startswith("rp_warm") and f.endswith(".ndjson"):
             with open(os.path.join(cdir, f)) as g:
